@@ -578,7 +578,7 @@ Proof. apply fold_resume_inv. Qed.
 (* ============================================================================================== *)
 (* ids of a new function                                                                          *)
 (* ============================================================================================== *)
-Lemma number_units_in gen : forall ps id u, In u (number_units gen id ps) ->
+Lemma number_units_in cr gen : forall ps id u, In u (number_units cr gen id ps) ->
   u_gen u = gen /\ id <= u_id u /\ u_id u < id + N.of_nat (length ps).
 Proof.
   induction ps as [|[[st ev] tm] r IH]; intros id u Hu; cbn [number_units] in Hu; [contradiction|].
@@ -586,22 +586,22 @@ Proof.
   - cbn [mk_unit u_gen u_id length]. lia.
   - destruct (IH _ _ Hu) as [A [B C]]. cbn [length]. lia.
 Qed.
-Lemma number_units_uniq gen : forall ps id u1 u2, In u1 (number_units gen id ps) -> In u2 (number_units gen id ps) ->
+Lemma number_units_uniq cr gen : forall ps id u1 u2, In u1 (number_units cr gen id ps) -> In u2 (number_units cr gen id ps) ->
   u_id u1 = u_id u2 -> u1 = u2.
 Proof.
   induction ps as [|[[st ev] tm] r IH]; intros id u1 u2 H1 H2 E; cbn [number_units] in H1, H2; [contradiction|].
   destruct H1 as [<-|H1], H2 as [<-|H2].
   - reflexivity.
-  - destruct (number_units_in _ _ _ _ H2) as [_ [B _]]. cbn [mk_unit u_id] in E. lia.
-  - destruct (number_units_in _ _ _ _ H1) as [_ [B _]]. cbn [mk_unit u_id] in E. lia.
+  - destruct (number_units_in _ _ _ _ _ H2) as [_ [B _]]. cbn [mk_unit u_id] in E. lia.
+  - destruct (number_units_in _ _ _ _ _ H1) as [_ [B _]]. cbn [mk_unit u_id] in E. lia.
   - exact (IH _ _ _ H1 H2 E).
 Qed.
-Lemma number_units_length gen : forall ps id, length (number_units gen id ps) = length ps.
+Lemma number_units_length cr gen : forall ps id, length (number_units cr gen id ps) = length ps.
 Proof. induction ps as [|[[st ev] tm] r IH]; intros id; cbn [number_units length]; [reflexivity|rewrite IH; reflexivity]. Qed.
 
 Lemma define_mid_inv (c : N) (newsys : bool) (s : fspec) (W : world) : Inv W ->
   let gen := w_next W in
-  let units := number_units gen (gen + 1) (if newsys then new_protos s else legacy_protos s) in
+  let units := number_units (s_crash s) gen (gen + 1) (if newsys then new_protos s else legacy_protos s) in
   let f := {| f_gen := gen; f_ctx := c; f_new := newsys; f_units := units; f_svc := s_svc s; f_pos := s_pos s |} in
   let Wf := {| w_led := w_led W; w_funcs := w_funcs W ++ [f]; w_active := w_active W; w_delayed := w_delayed W;
                w_pending := w_pending W; w_zombie := w_zombie W; w_running := w_running W; w_starting := w_starting W;
@@ -612,7 +612,7 @@ Lemma define_mid_inv (c : N) (newsys : bool) (s : fspec) (W : world) : Inv W ->
 Proof.
   intros HI gen units f Wf. pose proof HI as [I [S L]].
   assert (HU : forall u, In u units -> u_gen u = gen /\ gen < u_id u /\ u_id u < gen + 1 + N.of_nat (length units)).
-  { intros u Hu. destruct (number_units_in _ _ _ _ Hu) as [A [B C]]. unfold units. rewrite number_units_length. lia. }
+  { intros u Hu. destruct (number_units_in _ _ _ _ _ Hu) as [A [B C]]. unfold units. rewrite number_units_length. lia. }
   assert (P0 : 0 < gen) by apply (io_next W I).
   assert (OM : forall f' u', owns W f' u' -> owns Wf f' u').
   { intros f' u' [A B]. split; [cbn; apply in_or_app; left; exact A|exact B]. }
@@ -632,7 +632,7 @@ Proof.
         * exact (io_uniq W I f1 u1 f2 u2 O1' O2' E).
         * destruct (io_unit W I f1 u1 O1') as [_ [_ C]]. destruct (HU u2 Hu2) as [_ [B _]]. fold gen in C. lia.
         * destruct (io_unit W I f2 u2 O2') as [_ [_ C]]. destruct (HU u1 Hu1) as [_ [B _]]. fold gen in C. lia.
-        * split; [reflexivity|]. exact (number_units_uniq _ _ _ _ _ Hu1 Hu2 E).
+        * split; [reflexivity|]. exact (number_units_uniq _ _ _ _ _ _ Hu1 Hu2 E).
       + intros f1 f2 H1 H2 E. apply in_app_or in H1, H2. destruct H1 as [H1|[<-|[]]], H2 as [H2|[<-|[]]].
         * exact (io_guniq W I f1 f2 H1 H2 E).
         * destruct (io_gen W I f1 H1) as [_ C]. cbn [f_gen f] in E. fold gen in C. lia.
@@ -683,7 +683,7 @@ Lemma define_inv cfg c newsys s W : all_off cfg -> Inv W -> Inv (define cfg c ne
 Proof.
   intros AO HI. pose proof HI as [I [S L]]. unfold define.
   set (gen := w_next W).
-  set (units := number_units gen (gen + 1) (if newsys then new_protos s else legacy_protos s)).
+  set (units := number_units (s_crash s) gen (gen + 1) (if newsys then new_protos s else legacy_protos s)).
   set (f := {| f_gen := gen; f_ctx := c; f_new := newsys; f_units := units; f_svc := s_svc s; f_pos := s_pos s |}).
   set (Wf := {| w_led := w_led W; w_funcs := w_funcs W ++ [f]; w_active := w_active W; w_delayed := w_delayed W;
                 w_pending := w_pending W; w_zombie := w_zombie W; w_running := w_running W; w_starting := w_starting W;
@@ -830,6 +830,101 @@ Proof.
   apply (N1 f Hf); [|rewrite E; exact Hg]. unfold all_ctxs. apply in_map. exact Hf.
 Qed.
 
+(* ---- faults: a watcher dies ------------------------------------------------------------------------ *)
+Lemma Inv_ledger_shrink W L' : Inv W ->
+  (forall p, In p (l_state L') -> In p (l_state (w_led W))) -> (forall p, In p (l_event L') -> In p (l_event (w_led W))) ->
+  (forall p, In p (l_bus L') -> In p (l_bus (w_led W))) ->
+  (forall ev, In (ev, 0) (l_bus L') -> has_fst ev (l_event L') = true) ->
+  (forall t, In t (l_tasks L') -> In t (l_tasks (w_led W))) -> l_reap L' = l_reap (w_led W) -> l_svc L' = l_svc (w_led W) ->
+  Inv (set_led W L').
+Proof.
+  intros [I [S L]] HS HE HB HZ HT HR HV. split; [|split].
+  - apply (ids_ok_same W); [split; reflexivity|exact I].
+  - destruct S as [SR SP SD SA SZ]. constructor; wsimpl; assumption.
+  - constructor; wsimpl.
+    + intros e q H. apply (ok_state W L e q (HS _ H)).
+    + intros e q H. apply (ok_event W L e q (HE _ H)).
+    + intros e o H. destruct (ok_bus W L e o (HB _ H)) as [[-> _]|X]; [left; split; [reflexivity|apply HZ; exact H]|right; exact X].
+    + intros t H. rewrite HR. apply (ok_tasks W L t (HT _ H)).
+    + intros g H. rewrite HV in H. apply (ok_svc W L g H).
+Qed.
+
+Lemma bus0_ok W : Inv W -> forall ev, In (ev, 0) (l_bus (w_led W)) -> has_fst ev (l_event (w_led W)) = true.
+Proof.
+  intros [I [S L]] ev H. destruct (ok_bus W L ev 0 H) as [[_ X]|[R _]]; [exact X|].
+  exfalso. destruct (so_run W S 0 R) as [f [u [O [E _]]]]. exact (unit_id_nz W f u I O E).
+Qed.
+
+Lemma leg_crash_proj cfg u L : let L' := leg_crash cfg u L in
+  l_state L' = match u_state u with
+               | Some ids => notify_del (d16_notify_del_return cfg) ids (u_id u) (l_state L) | None => l_state L end /\
+  l_event L' = match u_event u with
+               | Some ev => if memp (ev, u_id u) (l_event L) then delp (ev, u_id u) (l_event L) else l_event L
+               | None => l_event L end /\
+  l_bus L' = match u_event u with
+             | Some ev => if memp (ev, u_id u) (l_event L) then
+                            if has_fst ev (delp (ev, u_id u) (l_event L)) then l_bus L else delp (ev, 0) (l_bus L)
+                          else l_bus L
+             | None => l_bus L end /\
+  l_tasks L' = deln (u_id u) (l_tasks L) /\ l_reap L' = l_reap L /\ l_svc L' = l_svc L.
+Proof.
+  unfold leg_crash. destruct (u_state u) as [ids|], (u_event u) as [ev|];
+    cbn [set_tasks set_state l_state l_event l_bus l_tasks l_reap l_svc].
+  all: try (match goal with |- context [ev_del ?e ?q ?X] =>
+              destruct (ev_del_proj e q X) as [E1 [E2 [E3 [E4 [E5 E6]]]]]; rewrite ?E1, ?E2, ?E3, ?E4, ?E5, ?E6 end).
+  all: cbn [set_tasks set_state l_state l_event l_bus l_tasks l_reap l_svc]; repeat split; reflexivity.
+Qed.
+
+(* everything but the subscription tables and the task list *)
+Definition status_same (W W' : world) : Prop :=
+  w_funcs W' = w_funcs W /\ w_next W' = w_next W /\ w_active W' = w_active W /\ w_delayed W' = w_delayed W /\
+  w_pending W' = w_pending W /\ w_zombie W' = w_zombie W /\ w_running W' = w_running W /\ w_starting W' = w_starting W /\
+  w_log W' = w_log W /\ l_reap (w_led W') = l_reap (w_led W) /\ l_svc (w_led W') = l_svc (w_led W).
+Lemma status_same_refl W : status_same W W.
+Proof. repeat split; reflexivity. Qed.
+Lemma status_same_trans A B C : status_same A B -> status_same B C -> status_same A C.
+Proof.
+  intros [a1 [a2 [a3 [a4 [a5 [a6 [a7 [a8 [a9 [a10 a11]]]]]]]]]] [b1 [b2 [b3 [b4 [b5 [b6 [b7 [b8 [b9 [b10 b11]]]]]]]]]].
+  repeat split; congruence.
+Qed.
+
+Lemma crash_unit_inv cfg W id : all_off cfg -> Inv W -> Inv (crash_unit cfg W id) /\ status_same W (crash_unit cfg W id).
+Proof.
+  intros [D16 _] HI. unfold crash_unit. destruct (find_unit W id) as [u|] eqn:FU; [|split; [exact HI|apply status_same_refl]].
+  destruct (find_unit_some W id u FU) as [_ EID]. subst id.
+  destruct (unit_new W u).
+  - split; [|repeat split; reflexivity].
+    apply Inv_ledger_shrink; wsimpl; auto; [apply (bus0_ok W HI)|]. intros t Ht. apply In_deln in Ht. tauto.
+  - destruct (leg_crash_proj cfg u (w_led W)) as [Ps [Pe [Pb [Pt [Pr Pv]]]]]. rewrite D16 in Ps.
+    set (L' := leg_crash cfg u (w_led W)) in *.
+    split; [|repeat split; wsimpl; try reflexivity; assumption].
+    apply Inv_ledger_shrink.
+    + exact HI.
+    + intros p Hp. rewrite Ps in Hp. destruct (u_state u); [eapply In_notify_del_sub; exact Hp|exact Hp].
+    + intros p Hp. rewrite Pe in Hp. destruct (u_event u) as [ev|]; [|exact Hp].
+      destruct (memp (ev, u_id u) (l_event (w_led W))); [apply In_delp in Hp; tauto|exact Hp].
+    + intros p Hp. rewrite Pb in Hp. destruct (u_event u) as [ev|]; [|exact Hp].
+      destruct (memp (ev, u_id u) (l_event (w_led W))); [|exact Hp].
+      destruct (has_fst ev (delp (ev, u_id u) (l_event (w_led W)))); [exact Hp|apply In_delp in Hp; tauto].
+    + intros ev' Hp. rewrite Pb in Hp. rewrite Pe. destruct (u_event u) as [ev|]; [|apply (bus0_ok W HI); exact Hp].
+      destruct (memp (ev, u_id u) (l_event (w_led W))); [|apply (bus0_ok W HI); exact Hp].
+      destruct (N.eq_dec ev' ev) as [->|NE].
+      * destruct (has_fst ev (delp (ev, u_id u) (l_event (w_led W)))) eqn:HF; [reflexivity|].
+        apply In_delp in Hp. exfalso. apply (proj2 Hp). reflexivity.
+      * rewrite has_fst_delp_other by exact NE. apply (bus0_ok W HI).
+        destruct (has_fst ev (delp (ev, u_id u) (l_event (w_led W)))); [exact Hp|apply In_delp in Hp; tauto].
+    + intros t Ht. rewrite Pt in Ht. apply In_deln in Ht. tauto.
+    + exact Pr.
+    + exact Pv.
+Qed.
+
+Lemma crash_all_inv cfg ids : all_off cfg -> forall W, Inv W -> Inv (crash_all cfg ids W) /\ status_same W (crash_all cfg ids W).
+Proof.
+  intros AO. unfold crash_all. induction ids as [|a r IH]; intros W HI; cbn [fold_left]; [split; [exact HI|apply status_same_refl]|].
+  destruct (crash_unit_inv cfg W a AO HI) as [H1 S1]. destruct (IH _ H1) as [H2 S2].
+  split; [exact H2|exact (status_same_trans _ _ _ S1 S2)].
+Qed.
+
 Lemma step_inv cfg W o : all_off cfg -> Inv W -> Inv (step cfg W o).
 Proof.
   intros AO HI. destruct o; cbn [step].
@@ -844,9 +939,11 @@ Proof.
   - apply resume_all_inv. exact HI.
   - apply do_reap_inv. exact HI.
   - apply settle_inv. exact HI.
-  - apply Inv_log. exact HI.
-  - apply Inv_log. exact HI.
-  - apply Inv_log. exact HI.
+  - apply crash_all_inv; assumption.
+  - pose proof AO as [_ [_ [_ [_ D92]]]]. rewrite D92. apply ctx_start_inv; assumption.
+  - apply crash_all_inv; [exact AO|apply Inv_log; exact HI].
+  - apply crash_all_inv; [exact AO|apply Inv_log; exact HI].
+  - apply crash_all_inv; [exact AO|apply Inv_log; exact HI].
   - apply Inv_log. exact HI.
 Qed.
 
